@@ -106,7 +106,7 @@ namespace mfuse
     class ScriptEmitter
     {
     public:
-        ScriptEmitter(IScriptManager& manager, StateScript& stateScriptValue, const OutputInfo* info, size_t maxDepth = -1);
+        ScriptEmitter(IScriptManager& manager, StateScript* stateScriptValue, const OutputInfo* info, size_t maxDepth = -1);
         void Reset();
 
     public:
